@@ -523,7 +523,7 @@ PROPS = {
                    'the injected one or the k-th argument of that type), C20_saveto, C20_struct_plan_paths + C20_fill_spec (for any tags and post-actions the inputs '
                    'are stored at pairwise independent existing places, each lands at its field, nothing else changes) and C20_struct_plan_plain (untagged structs: '
                    'exactly the exported fields, recursively, in declaration order), C20_post_action_field_parameter / C20_post_action_without_field_parameter / C20_post_action_uses_field_parameter (the parameter of a '
-                   'post-action function that stands for the field is the first one of the field\'s type or a pointer to it; none means no match; the struct plan records the action with that parameter\'s address-of flag); all lists, shapes and depths; Coq, no axioms. The models of utils.go and filler.go '
+                   'post-action function that stands for the field is the first one of the field\'s type or a pointer to it; none means no match; the struct plan records the action with that parameter\'s address-of flag), C20_struct_plan_fuel_suffices (the fuelled traversal of the struct type never fails for lack of fuel); all lists, shapes and depths; Coq, no axioms. The models of utils.go and filler.go '
                    'are tied to /repo by the curry, saveto and filler streams; post-action order and the tag rules are part of the model and validated by the stream, '
                    'their specification beyond the plain case is the model itself.',
         level_note=CHAIN_NOTE + ' WithMethodCall, FillExisting, MatchToOpenInterface and field/function type conversion in post-actions are not exercised.',
